@@ -82,8 +82,10 @@ fn of_state(s: &State) -> VMap {
     }
     m
 }
+/// The store never looks inside a state, it only carries it: one key is enough to tell two states
+/// apart (4 values), and halves the map handling in every query.
 fn any_vmap() -> VMap {
-    [nd::u8_below(4), nd::u8_below(4)]
+    [nd::u8_below(4), 0]
 }
 
 fn sid(n: u128) -> SessionId {
@@ -128,7 +130,7 @@ fn any_mrec() -> MRec {
 
 /// Build the real store with exactly the model's content (stale records included: they are
 /// physically there until somebody purges them).
-fn build(m: &Model) -> InMemorySessionStore {
+fn build(m: &Model, symbolic_slot_order: bool) -> InMemorySessionStore {
     let e = |i: usize, id: u128| -> Option<(SessionId, StoreRecord)> {
         if m.recs[i].present {
             Some((sid(id), StoreRecord { state: to_state(&m.recs[i].state), deadline: Timestamp(m.recs[i].deadline) }))
@@ -137,7 +139,8 @@ fn build(m: &Model) -> InMemorySessionStore {
         }
     };
     let (ea, eb) = (e(0, ID_A), e(1, ID_B));
-    let map = if nd::any_bool() { HashMap::from_slots([ea, eb]) } else { HashMap::from_slots([eb, ea]) };
+    // the physical order of the two records only matters to the one operation that iterates
+    let map = if symbolic_slot_order && nd::any_bool() { HashMap::from_slots([eb, ea]) } else { HashMap::from_slots([ea, eb]) };
     InMemorySessionStore(Arc::new(Mutex::new(map)))
 }
 
@@ -164,10 +167,13 @@ struct World {
     now: i64,
 }
 fn any_world() -> World {
+    any_world_o(false)
+}
+fn any_world_o(symbolic_slot_order: bool) -> World {
     let m = Model { recs: [any_mrec(), any_mrec()] };
     let now: i64 = nd::i64_in(0, T_MAX);
     verif_set_now(now);
-    let s = build(&m);
+    let s = build(&m, symbolic_slot_order);
     let w = World { m, s, now };
     vtrace_world(&w);
     w
@@ -359,18 +365,8 @@ fn change_body(w: &World, i: usize, j: usize) {
     kani::cover!(i != j && live_i && w.m.recs[j].present && !live_j, "change_id onto an expired record");
 }
 
-// @tier quick
-// @obligation delete_expired(batch) from every store content and instant: live records are untouched, the count returned equals the number of records purged, is at most the batch size, and without a batch size every expired record is physically gone
-// @bounds as c13_load; batch size in {None, 1, 2}
-// @functions InMemorySessionStore::delete_expired
-// @mem 40
-// @timeout 2400
-#[kani::proof]
-#[kani::unwind(4)]
-#[kani::stub(std::fmt::format, fmt_stub)]
-fn c13_delete_expired() {
-    let w = any_world();
-    let b: u8 = nd::u8_below(3);
+fn delete_expired_body(b: u8) -> (usize, bool) {
+    let w = any_world_o(true);
     let batch = NonZeroUsize::new(b as usize);
     let stale = |i: usize| w.m.recs[i].present && !w.m.live(i, w.now);
     let n_stale = stale(0) as usize + stale(1) as usize;
@@ -390,12 +386,55 @@ fn c13_delete_expired() {
     check_views(&w, &w.m);
     assert!(!w.m.live(0, w.now) || pa, "delete_expired removed a live record");
     assert!(!w.m.live(1, w.now) || pb, "delete_expired removed a live record");
-    kani::cover!(n_stale == 2 && b == 1, "batch smaller than the backlog");
-    kani::cover!(n_stale == 1 && w.m.live(0, w.now), "one stale, one live");
+    let one_live = w.m.live(0, w.now);
     std::mem::forget(r);
     std::mem::forget(w);
+    (n_stale, one_live)
 }
 
+// @tier quick
+// @obligation delete_expired(None) from every store content, physical record order and instant: every expired record is physically gone, live records are untouched, the count returned equals the number of records purged
+// @bounds as c13_load; both physical orders of the two records
+// @functions InMemorySessionStore::delete_expired
+// @timeout 1800
+// @mem 40
+#[kani::proof]
+#[kani::unwind(4)]
+#[kani::stub(std::fmt::format, fmt_stub)]
+fn c13_delete_expired_all() {
+    let (n_stale, one_live) = delete_expired_body(0);
+    kani::cover!(n_stale == 2, "two expired records");
+    kani::cover!(n_stale == 1 && one_live, "one stale, one live");
+}
+
+// @tier quick
+// @obligation delete_expired(Some(1)): exactly min(1, #expired) records are purged and reported, never a live one, whatever the physical order
+// @bounds as c13_load; both physical orders
+// @functions InMemorySessionStore::delete_expired
+// @timeout 1800
+// @mem 40
+#[kani::proof]
+#[kani::unwind(4)]
+#[kani::stub(std::fmt::format, fmt_stub)]
+fn c13_delete_expired_batch1() {
+    let (n_stale, one_live) = delete_expired_body(1);
+    kani::cover!(n_stale == 2, "batch smaller than the backlog");
+    kani::cover!(n_stale == 1 && one_live, "one stale, one live");
+}
+
+// @tier thorough
+// @obligation delete_expired(Some(2)): batch equal to the capacity of the bound
+// @bounds as c13_load; both physical orders
+// @functions InMemorySessionStore::delete_expired
+// @timeout 1800
+// @mem 40
+#[kani::proof]
+#[kani::unwind(4)]
+#[kani::stub(std::fmt::format, fmt_stub)]
+fn c13_delete_expired_batch2() {
+    let (n_stale, _one_live) = delete_expired_body(2);
+    kani::cover!(n_stale == 2, "batch equal to the backlog");
+}
 
 /// Native search for a concrete failing input (see nd.rs); only built when a counterexample has to
 /// be made concrete.
@@ -412,5 +451,9 @@ mod native_search {
     #[test]
     fn c13_change_id() { nd::search("c13_change_id", super::c13_change_id, reset) }
     #[test]
-    fn c13_delete_expired() { nd::search("c13_delete_expired", super::c13_delete_expired, reset) }
+    fn c13_delete_expired_all() { nd::search("c13_delete_expired_all", super::c13_delete_expired_all, reset) }
+    #[test]
+    fn c13_delete_expired_batch1() { nd::search("c13_delete_expired_batch1", super::c13_delete_expired_batch1, reset) }
+    #[test]
+    fn c13_delete_expired_batch2() { nd::search("c13_delete_expired_batch2", super::c13_delete_expired_batch2, reset) }
 }
